@@ -128,6 +128,13 @@ type World struct {
 	Reg *Registry
 	Ix  *LeafIndex
 
+	// InBubble: the run executes inside a synctest bubble; the wall clock follows w.Now.
+	InBubble bool
+
+	MB         *block.MagicBlock
+	initStates *state.InitStates
+	replicas   []*Replica
+
 	obs []Observer
 }
 
@@ -278,10 +285,9 @@ func NewWorldWith(seed uint64, cfg Cfg, tr *sim.Trace, early func(w *World)) *Wo
 	_ = given
 
 	w.Now = genesisTime
-	c.SetMagicBlock(mb)
-	gr, gb := c.GenerateGenesisBlock(encryption.Hash(fmt.Sprintf("genesis-%d", seed)), mb, &is)
-	c.AddGenesisBlock(gb)
-	c.AddRound(gr)
+	w.MB = mb
+	w.initStates = &is
+	gb := w.genesisOn(c)
 	w.Genesis = gb
 	w.Head = gb
 	for _, cl := range w.Clients {
@@ -290,11 +296,23 @@ func NewWorldWith(seed uint64, cfg Cfg, tr *sim.Trace, early func(w *World)) *Wo
 	return w
 }
 
+// genesisOn runs the shipped genesis path on a chain instance (primary or replica).
+func (w *World) genesisOn(c *chain.Chain) *block.Block {
+	c.SetMagicBlock(w.MB)
+	gr, gb := c.GenerateGenesisBlock(encryption.Hash(fmt.Sprintf("genesis-%d", w.Seed)), w.MB, w.initStates)
+	c.AddGenesisBlock(gb)
+	c.AddRound(gr)
+	return gb
+}
+
 // Close stops the chain's goroutines and forgets the disks of this run.
 func (w *World) Close() {
 	w.stop()
 	cstate.VerifObserver = nil
 	grocksdb.SimRemove(w.DiskPath + "/data/rocksdb/state")
+	for _, rp := range w.replicas {
+		grocksdb.SimRemove(rp.DiskPath + "/data/rocksdb/state")
+	}
 }
 
 // ---- transactions ---------------------------------------------------------------------------------
